@@ -2726,6 +2726,43 @@ def r5_raw_nodes_survive(corpus: Corpus, rep: Report, tier: str):
             lv = loop.target.id
             muts = [c for st in loop.body for c in ast.walk(st) if isinstance(c, ast.Call) and isinstance(c.func, ast.Attribute) and c.func.attr in _TREE_MUTATORS and any(isinstance(x, ast.Name) and x.id == lv for x in ast.walk(c))]
             muts += [d for st in loop.body for d in ast.walk(st) if isinstance(d, ast.Delete)]
+            if not muts:
+                # the removal may live in a helper that is handed the node: follow package functions (two levels)
+                def helper_mutates(callee: FunctionInfo, par: str, depth: int = 0):
+                    for c_ in callee.local_nodes():
+                        if isinstance(c_, ast.Call) and isinstance(c_.func, ast.Attribute) and c_.func.attr in _TREE_MUTATORS and any(isinstance(x, ast.Name) and x.id == par for x in ast.walk(c_)):
+                            return c_
+                        if isinstance(c_, ast.Delete) and any(isinstance(x, ast.Name) and x.id == par for x in ast.walk(c_)):
+                            return c_
+                    if depth < 2:
+                        for c_ in callee.local_nodes():
+                            if isinstance(c_, ast.Call) and dotted(c_.func):
+                                nxt = corpus.find_function(callee.module.resolve(dotted(c_.func)))
+                                if nxt is not None and not nxt.is_lambda and nxt.fq != callee.fq:
+                                    for i_, a_ in enumerate(c_.args):
+                                        if isinstance(a_, ast.Name) and a_.id == par and i_ < len(nxt.params):
+                                            r_ = helper_mutates(nxt, nxt.params[i_ + (1 if nxt.cls is not None and nxt.params[:1] == ["self"] else 0)] if i_ + (1 if nxt.cls is not None and nxt.params[:1] == ["self"] else 0) < len(nxt.params) else nxt.params[-1], depth + 1)
+                                            if r_ is not None:
+                                                return r_
+                    return None
+
+                for st in loop.body:
+                    for c_ in ast.walk(st):
+                        if isinstance(c_, ast.Call) and dotted(c_.func):
+                            callee = corpus.find_function(m.resolve(dotted(c_.func)))
+                            if callee is None or callee.is_lambda:
+                                continue
+                            off = 1 if callee.cls is not None and callee.params[:1] == ["self"] else 0
+                            for i_, a_ in enumerate(c_.args):
+                                if isinstance(a_, ast.Name) and a_.id == lv and i_ + off < len(callee.params):
+                                    r_ = helper_mutates(callee, callee.params[i_ + off])
+                                    if r_ is not None:
+                                        muts.append(r_)
+                            for kw_ in c_.keywords:
+                                if isinstance(kw_.value, ast.Name) and kw_.value.id == lv and kw_.arg in callee.params:
+                                    r_ = helper_mutates(callee, kw_.arg)
+                                    if r_ is not None:
+                                        muts.append(r_)
             k = f"{fn.fq}|raw nodes of {short(root, 30)}"
             site = m.site(loop)
             if not muts:
@@ -3109,6 +3146,19 @@ def mutants(corpus: Corpus):
         g_ = find_node(pf, lambda n: isinstance(n, ast.If) and "raw_enabled" in unparse(n.test))
         if g_ is not None:
             add(f"c17-raw-filter-unconditional-{modname.split('.')[-1]}", "C17.R5", splice(pf.module.src, g_.test, "True"), "raw nodes of", rel_=pf.module.rel, canary=(modname == "parsers.sphinx_"))
+    # removal moved into a helper, filter unconditional (the rule must follow the helper)
+    pfd = corpus.func("parsers.docutils_:Parser.parse")
+    gd = find_node(pfd, lambda n: isinstance(n, ast.If) and "raw_enabled" in unparse(n.test))
+    if gd is not None:
+        inner = next((n for n in ast.walk(gd) if isinstance(n, ast.For) and any(isinstance(c, ast.Call) and len(c.args) >= 1 and unparse(c.args[0]) == "nodes.raw" for c in ast.walk(n.iter))), None)
+        if inner is not None and isinstance(inner.target, ast.Name):
+            dsrc = pfd.module.src
+            ind = " " * inner.body[0].col_offset
+            s2 = splice(dsrc, inner.body[-1], "pass")
+            body0 = inner.body[0]
+            s2 = splice(s2, body0, f"_drop_raw_node({inner.target.id})\n{ind}" + ast.get_source_segment(dsrc, body0))
+            s2 = splice(s2, gd.test, "True") + f"\n\ndef _drop_raw_node(raw_node):\n    raw_node.parent.remove(raw_node)\n"
+            add("c17-raw-removed-in-helper-unconditionally", "C17.R5", s2, "raw nodes of", rel_=pfd.module.rel, note="the removal lives in a helper that is handed the node")
     # ---- R6: extension switch restored ----
     fm = corpus.func("sphinx_ext.directives:FigureMarkdown.run")
     sv_ = find_stmt(fm, lambda s_: isinstance(s_, ast.Assign) and isinstance(s_.value, ast.Call) and (dotted(s_.value.func) or "") == "copy" and (dotted(s_.value.args[0]) or "").endswith(".enable_extensions"))
